@@ -16,6 +16,7 @@ impl PairMap {
     pub uninterp spec fn view(&self) -> Set<(Lifetime, Lifetime)>;
     #[verifier::external_body] pub fn new() -> (r: Self) ensures r@ == Set::<(Lifetime, Lifetime)>::empty() { unimplemented!() }
     #[verifier::external_body] pub fn add_pair(&mut self, k: Lifetime, v: Lifetime) ensures final(self)@ == old(self)@.insert((k, v)) { unimplemented!() }
+    #[verifier::external_body] pub fn is_empty(&self) -> (b: bool) ensures b == (self@ =~= Set::<(Lifetime, Lifetime)>::empty()) { unimplemented!() }
 }
 
 /*@EDGE_TYPES@*/
@@ -35,6 +36,26 @@ pub struct LinkedLifetimes<'tcx> { pub env: &'tcx LifetimeEnv, pub pairs: Ghost<
 pub uninterp spec fn link_of<'tcx>(s: &StructPath, tcx: &'tcx TypeContext) -> LinkedLifetimes<'tcx>;
 impl StructPath {
     #[verifier::external_body] pub fn link_lifetimes<'tcx>(&self, tcx: &'tcx TypeContext) -> (r: LinkedLifetimes<'tcx>) ensures r == link_of(self, tcx) { unimplemented!() }
+}
+// ---- collaborators of StructBorrowInfo::compute_for_struct_field
+#[verifier::external_body] pub struct Lifetimes { x: u8 }
+pub uninterp spec fn path_lts(s: &StructPath) -> Seq<MaybeStatic<Lifetime>>;
+impl Lifetimes {
+    pub uninterp spec fn view(&self) -> Seq<MaybeStatic<Lifetime>>;
+    #[verifier::external_body] pub fn as_slice(&self) -> (r: &[MaybeStatic<Lifetime>]) ensures r@ == self@ { unimplemented!() }
+}
+impl StructPath {
+    #[verifier::external_body] pub fn lifetimes(&self) -> (r: &Lifetimes) ensures r@ == path_lts(self) { unimplemented!() }
+}
+// the lifetime env of the enclosing struct definition: all_lifetimes() yields Lifetime(0) .. Lifetime(n-1)
+pub struct DefLifetimeEnv { pub num_lifetimes: usize }
+impl DefLifetimeEnv {
+    #[verifier::external_body] pub fn all_lifetimes(&self) -> (r: Vec<Lifetime>)
+        ensures r@.len() == self.num_lifetimes, forall|i: int| 0 <= i < r@.len() ==> r@[i] == Lifetime(i as usize) { unimplemented!() }
+}
+pub struct StructDef { pub lifetimes: DefLifetimeEnv }
+pub open spec fn want_field_pair(pairs: Pairs, n_outer: int, n_inner: int, d: Lifetime, m: Lifetime) -> bool {
+    0 <= m.0 < n_outer && exists|j: int| #![trigger pairs[j]] 0 <= j < n_inner && j < pairs.len() && pairs[j].1 == d && pairs[j].0 == MaybeStatic::NonStatic(m)
 }
 impl<'tcx> LinkedLifetimes<'tcx> {
     #[verifier::external_body] pub fn lifetimes_def_only(&self) -> (r: Vec<(MaybeStatic<Lifetime>, Lifetime)>) ensures r@ == self.pairs@ { unimplemented!() }
